@@ -25,8 +25,8 @@ RULE = ("coarsen_bins: every valid bin table with 1 chromosome of length <=7 and
         "_greedy_prune_partition: every non-decreasing edge list from 0 of length 2..5 with values <=5 x maxlen 1..6; "
         "coarsen_cooler: corpus (D1 longer-last-bin tables, chromosomes shorter than k, empty cooler, empty rows at chunk edges, variable tables whose coarsening looks fixed, bin size 1, one-bin chromosomes) x k in {2,3,5,n+1} x chunksize in {1,2,7,nnz+1} (all 16 combinations for the first 4 corpus coolers, 1 chunk size per k for the other corpus coolers, 2 for the random ones), "
         "seeded random coolers (fixed / variable / longer-last / variable-that-coarsens-to-fixed tables, 1-4 chromosomes, symmetric and square storage, 9 pixel patterns) x all four k x two chunk sizes, "
-        "fixed-width tables of EVERY width 1..60 x k in {2,7} and 1..20 x k in {3,5} (thorough: 1..200 x {2,3,5,7}) at function level (chunk stream of CoolerCoarsener vs exact integer division) and end to end for widths 7,49,98,103,107,161,187,196 + random widths <= 2000 with >= 3 coarse bins per chromosome; nproc=2 and the CLI on a few, chains k1;k2 vs k1*k2 (fixed and variable tables), merge/coarsen interleavings, a second value column with agg max/min/sum incl. the D20 corpus (columns=[count,w], columns=[w]); "
-        "`cooler coarsen` (and one `cooler zoomify`) with every order of 1..3 --field options over count/w/s (source holds all three), each with / without agg= and dtype=, per column vs the requested aggregate (sum by default) of the block and vs the model; every output judged also by its header attributes (storage-mode, bin-type/size, nbins, nchroms, nnz, sum, format) and by Cooler.matrix(balance=False)[:] vs the (symmetric completion of the) block aggregation; bases in legacy form (11 optional attributes removed one at a time, format-version 2; symmetric and square; merge inputs); LARGE genomes with few bins (total length just below / at / above 2^31 and 2^32, every chromosome < 2^31; fixed bins of 100 Mb..1 Gb and variable tables; symmetric and square; k = 2, 3 and k collapsing every chromosome to one bin; chunk sizes 1/7/nnz+1; nproc 1 and 2; zoomify on the same bases); HISTORIES in one process (the same source and destination URI strings while the source file is rewritten in between: re-binned coarser/finer, other chromsizes, variable widths, fewer/more bins, square, nproc 1 then 2 and 2 then 1, several chunk sizes; a hand-made ladder over two alternating file names), every output judged for the data stored now; every level (copied bases included, k=1) of zoomify_cooler / `cooler zoomify --base-uri` files built from 1, 2 and 3 base coolers in every listing order (bases that are / are not multiples of each other) vs the block aggregation of its own base; fixed parameter scenarios (output URI in a nested group, append into an existing file, same-file in/out, re-run onto an existing group, mode=w, nproc 2/3 with an uneven span count, CLI -p/--append/-a/-o URI, dtypes full/partial dict, lock=, float64 counts, weight bin column on the input, trailing empty rows, CoolerCoarsener batchsize 2/3); non-trivial = nnz>0 and at least 2 old bins; distinct by input hash")
+        "fixed-width tables of EVERY width 1..45 x k in {2,7} and 1..20 x k in {3,5} (thorough: 1..200 x {2,3,5,7}) at function level (chunk stream of CoolerCoarsener vs exact integer division) and end to end for widths 7,49,98,103,107,161,187,196 + random widths <= 2000 with >= 3 coarse bins per chromosome; nproc=2 and the CLI on a few, chains k1;k2 vs k1*k2 (fixed and variable tables), merge/coarsen interleavings, a second value column with agg max/min/sum incl. the D20 corpus (columns=[count,w], columns=[w]); "
+        "coarse bin sizes B = base*k for base in {1,7,10,11,1000,11000} x k in 2..60 and random B <= 10^5 on a cooler whose bins start exactly on the multiples of B, at least 10 B whose float64 reciprocal rounds down next to friendly ones; `cooler coarsen` (and one `cooler zoomify`) with every order of 1..3 --field options over count/w/s (source holds all three), each with / without agg= and dtype=, per column vs the requested aggregate (sum by default) of the block and vs the model; every output judged also by its header attributes (storage-mode, bin-type/size, nbins, nchroms, nnz, sum, format) and by Cooler.matrix(balance=False)[:] vs the (symmetric completion of the) block aggregation; bases in legacy form (11 optional attributes removed one at a time, format-version 2; symmetric and square; merge inputs); LARGE genomes with few bins (total length just below / at / above 2^31 and 2^32, every chromosome < 2^31; fixed bins of 100 Mb..1 Gb and variable tables; symmetric and square; k = 2, 3 and k collapsing every chromosome to one bin; chunk sizes 1/7/nnz+1; nproc 1 and 2; zoomify on the same bases); HISTORIES in one process (the same source and destination URI strings while the source file is rewritten in between: re-binned coarser/finer, other chromsizes, variable widths, fewer/more bins, square, nproc 1 then 2 and 2 then 1, several chunk sizes; a hand-made ladder over two alternating file names), every output judged for the data stored now; every level (copied bases included, k=1) of zoomify_cooler / `cooler zoomify --base-uri` files built from 1, 2 and 3 base coolers in every listing order (bases that are / are not multiples of each other) vs the block aggregation of its own base; fixed parameter scenarios (output URI in a nested group, append into an existing file, same-file in/out, re-run onto an existing group, mode=w, nproc 2/3 with an uneven span count, CLI -p/--append/-a/-o URI, dtypes full/partial dict, lock=, float64 counts, weight bin column on the input, trailing empty rows, CoolerCoarsener batchsize 2/3); non-trivial = nnz>0 and at least 2 old bins; distinct by input hash")
 TRUSTED = ["pandas groupby(sort=True).aggregate('sum') is modelled as the canonical aggregate (Model/Pixels.v) and observed through CoolerCoarsener",
            "create() stores the concatenation of the chunk stream (property C01/C02, observed here through the output cooler)",
            "multiprocess.Pool.map is order preserving (source-pattern assertion on coarsen_cooler + nproc=2 runs)"]
@@ -439,7 +439,7 @@ def part_widths(ctx):
     tmpdir.mkdir(exist_ok=True)
     ks = [2, 3, 5, 7]
     # (a) function level: every width 1..60 (thorough: 1..200) x k; exact integer division in the model and the oracle
-    wmax = 200 if thorough else 60
+    wmax = 200 if thorough else 45
     exprs = []
     def ks_of(w):          # quick tier: k = 2 and 7 for every width, 3 and 5 for the widths up to 20
         return ks if (thorough or w <= 20) else [2, 7]
@@ -1497,6 +1497,42 @@ def part_cli_fields(ctx):
     return len(cases)
 
 
+# -------- part 12: sweep over coarse bin sizes B = base*k incl. those whose reciprocal rounds down in binary64
+def part_binsize_sweep(ctx):
+    thorough = ctx.tier == "thorough"
+    tmpdir = ctx.tmp / "bsweep"
+    tmpdir.mkdir(exist_ok=True)
+    plan = G.binsize_sweep_plan(ctx.rng, thorough)
+    n, nbad, sample = 0, 0, []
+    for pi, (base, ks) in enumerate(plan):
+        widths, pixels = G.binsize_sweep_cooler(base, ks)
+        blocks = blocks_from_widths(widths)
+        path = tmpdir / f"b{pi}.cool"
+        G.make_cooler(path, blocks, pixels, True)
+        for k in ks:
+            case = {"fn": "CoolerCoarsener (coarse bin size sweep)", "widths": widths, "symmetric": True, "pixels": pixels, "k": k,
+                    "chunksize": 10 ** 6, "nproc": 1, "base": base, "B": base * k}
+            n += 1
+            nbad += G.reciprocal_rounds_down(base * k)
+            ctx.case(case, nontrivial=G.reciprocal_rounds_down(base * k), kind="binsize-sweep")
+            st, got = G.guarded(lambda: width_stream(path, case), 30)
+            exp = G.oracle_pixels(blocks, pixels, k)
+            if st != "ok" or got != exp:
+                ctx.fail(case, {"what": "re-binned pixels differ from index-based block aggregation", "coarse_binsize": base * k,
+                                "status": st, "got": got[:12] if st == "ok" else got, "expected": exp[:12]}, None)
+            if len(pixels) <= 60 and len(sample) < 4:
+                sample.append((case, got if st == "ok" else st))
+        os.remove(path)
+    if sample:      # the model (exact integer division) on a sample
+        model = C.coq_eval(HDR, [model_expr(c, 1) for c, _ in sample], tmpdir=ctx.tmp / "bsweepv")
+        for (case, got), mo in zip(sample, model):
+            ctx.compare("CoolerCoarsener stream (coarse bin size sweep)", case, got, [list(p) for p in mo[1]])
+    ctx.extra["binsize_sweep_float_unfriendly"] = nbad
+    if nbad < 10:
+        ctx.broke(f"generator: only {nbad} coarse bin sizes with a down-rounding reciprocal in the sweep")
+    return n
+
+
 # ----------------------------------------------------------------------- run
 def run(ctx):
     import time
@@ -1504,7 +1540,7 @@ def run(ctx):
     scopes, times = {}, {}
     for name, fn in (("coarsen_bins_cases", part_bins), ("prune_cases", part_prune), ("api_runs", part_api),
                      ("width_sweep_runs", part_widths), ("chains", part_chain), ("merge_interleavings", part_merge),
-                     ("agg_runs", part_agg), ("param_scenarios", part_params), ("multires_levels", part_multires), ("history_steps", part_history), ("large_genome_runs", part_large), ("cli_field_arrangements", part_cli_fields)):
+                     ("agg_runs", part_agg), ("param_scenarios", part_params), ("multires_levels", part_multires), ("history_steps", part_history), ("large_genome_runs", part_large), ("cli_field_arrangements", part_cli_fields), ("binsize_sweep_runs", part_binsize_sweep)):
         t0 = time.time()
         scopes[name] = fn(ctx)
         times[name] = round(time.time() - t0, 1)
@@ -1540,7 +1576,7 @@ def replay(ctx, case):
         from cooler._reduce import _greedy_prune_partition
         st, res = G.guarded(lambda: [int(x) for x in _greedy_prune_partition(np.array(case["edges"]), case["maxlen"])], 10)
         return st == "ok" and G.oracle_prune(case["edges"], case["maxlen"], res)
-    if fn.startswith("CoolerCoarsener (bin width"):
+    if fn.startswith("CoolerCoarsener (bin width") or fn.startswith("CoolerCoarsener (coarse bin size"):
         blocks = blocks_from_widths(case["widths"])
         path = tmpdir / "replay_w.cool"
         G.make_cooler(path, blocks, case["pixels"], True)
